@@ -222,7 +222,7 @@ def budget(scenario):
         for t in ([e["leaf"]] if "leaf" in e else e["par"]):
             v = scenario["svc"].get(t["name"], 0.25)
             mx = max(v) if isinstance(v, list) else max(v.values()) if isinstance(v, dict) else v
-            total += mx * (t.get("iterations") or 1) * 4
+            total += mx * ((t.get("iterations") or 1) + (t.get("warmup_iterations") or 0)) * 4
     per_step = 12.0 + 3 * scenario.get("max_wakeup_delay", 0.0)
     return 50.0 + total * 3 + per_step * (len(scenario["schedule"]) + 2) * 3
 
